@@ -258,6 +258,15 @@ class Cloner:
                     and spec.value in self._value_map
                 ):
                     io_map[spec.value] = self._value_map[spec.value]
+                elif (
+                    spec.value is not None
+                    and spec.value not in io_map
+                    and not self._allow_outer_scope_values
+                ):
+                    raise ValueError(
+                        f"Value '{spec.value}' targeted by a sharding spec of node '{node}' is an outer-scope "
+                        "value, but 'allow_outer_scope_values' is set to False."
+                    )
         new_node.device_configurations = self._remap_device_configurations(
             new_node.device_configurations, io_map
         )
